@@ -94,6 +94,9 @@ def run(tier, seed):
         if "prover_panic" in o:
             v.violation("fri/honest/prover-" + o["prover_panic"], "honest FRI prover fails on a well-formed schedule: %s (%s)" % (o["prover_panic"], ctx), c)
             continue
+        if o.get("verify") == "ok" and o.get("verify_reuse", "ok") == "ok" and o.get("verify_reuse_other_size", "ok") != "ok":
+            v.violation("fri/honest/reuse-other-size", "a prover instance reused for a domain of half the size does not give an accepted proof: %s (%s)" % (
+                o.get("verify_reuse_other_size"), ctx), c)
         if o.get("verify") != "ok" or o.get("verify_reuse", "ok") != "ok":
             kind = (o.get("verify") if o.get("verify") != "ok" else "reuse:" + o.get("verify_reuse", "")).split(":")[0]
             v.violation("fri/honest/" + kind, "honest FRI proof not accepted: %s / reuse %s (%s)" % (o.get("verify"), o.get("verify_reuse"), ctx), c)
